@@ -76,6 +76,7 @@ func main() {
 	rep = newReporter(r)
 	encryptSide(r)
 	encryptValueSide(r)
+	encryptLongSide(r)
 	stanzaSide(r)
 	// The metered part runs alone: every worker of the parallel parts above has
 	// returned (mon.Par waits), nothing else allocates.
